@@ -22,7 +22,9 @@ func (h *hmac) resetTo(key []byte) {
 	if len(key) > blocksize {
 		// If key is too big, hash it.
 		h.outer.Write(key) //nolint:errcheck,gosec
-		key = h.outer.Sum(nil)
+		// The digest is written into opad (zeroed above, at least a block long)
+		// instead of a new slice, so that long keys do not allocate on every use.
+		key = h.outer.Sum(h.opad[:0])
 	}
 	copy(h.ipad, key)
 	copy(h.opad, key)
